@@ -8,39 +8,44 @@
                         (Text, Comment, MergedSpacer, EscapedComment, LineBreak,
                         CommandName, free `[` `]` `(` `)`, stray closers, ...)
      DGroup o body c    a brace group  { body }
-     DCmd e n args      a command  \name  with "as many as there are"
-                        arguments: bracket groups, then brace groups, each
-                        optionally preceded by one MergedSpacer token (the
-                        FIRST PASS of read_args only)
+     DCmd e n args      a command  \name <argument groups>, the name not
+                        item / begin / end / a \newcommand-style name:
+                        - name outside the signature table ("as many as there
+                          are"): bracket groups, brace groups, and - glued on
+                          without a spacer - bracket groups, brace groups once
+                          more (BOTH passes of read_args), each group optionally
+                          preceded by one MergedSpacer token;
+                        - name with a fixed signature (\section, \textbf,
+                          \label, \def, \cup ...): at most `optional` bracket
+                          groups, then exactly `required` BRACE GROUPS
      DMath k o body c   a math region  $..$  $$..$$  \(..\)  \[..\]
-     DEnv e b ng body e2 en ng2
-                        a named environment  \begin{name} body \end{name}
-                        (ng, ng2 the two name groups, brace arguments; no
-                        further arguments of \begin; not a math environment
-                        name, not a verbatim name)
+     DEnv e b ng xargs body e2 en ng2
+                        a named environment  \begin{name}<args> body \end{name}
+                        (ng, ng2 the two name groups, brace arguments; xargs
+                        the further arguments of \begin; math environment
+                        names included; not a verbatim name)
      DItem e n args body
                         a list item  \item <args> body : the body extends to
                         the next \item, an \end, a closing brace or the end of
                         the input
      Arg sp k o body c  an argument group of kind k with its optional spacer
-   NOT covered: fixed-signature commands
-   (\section, \textbf, ...: Tables.signatures), the second argument pass
-   (\a{x}[y]), \newcommand-style special commands, verbatim environments,
-   unclosed constructs (tolerant mode).
+   NOT covered: required arguments given as bare tokens (\textbf x, \def\a..),
+   \newcommand-style special commands, verbatim environments, unclosed constructs (tolerant mode), and - for
+   `\end{name}` - groups directly following it (see C02pp_follows_ok_env).
 
    `flat d` is the token list of d, `tree d` the node the reader must build:
      EText t / EGroup GBrace (map tree body) (tpos o) /
      ECmd (strip (ttext n)) (map tree_arg args) [] (tpos e) /
      EMath k (map tree body) (tpos o) /
-     ENamed (strip (arg_string (tree_arg ng))) [] (map tree body) (tpos e) /
+     ENamed (strip (arg_string (tree_arg ng))) (map tree_arg xargs) (map tree body) (tpos e) /
      ECmd (strip (ttext n)) (map tree_arg args) (map tree body) (tpos e)  [item];
    an argument is EGroup k (map tree body) (tpos o).
 
-   Parameters of `wf`: SK, the names of the environments read verbatim
+   Arguments of `wf`: SK, the names of the environments read verbatim
    (Tables.skip_env_names ++ the user's list: all_skip user), and mm, "read in
-   math mode" (inside a math region; inherited by argument groups and
-   environment bodies; reset by a free-standing brace group and by an item
-   body): \item is an AssertionError in math mode.
+   math mode" (inside a math region or a math environment; inherited by
+   argument groups and environment bodies; reset by a free-standing brace
+   group and by an item body): \item is an AssertionError in math mode.
 
    The well-formedness conditions were found by doing the proof; each is
    stated below as an equation (the C02pp_wf_ theorems) with the behaviour of the code that
@@ -113,29 +118,67 @@ Theorem C02pp_wf_group : forall SK mm o b c,
 Proof. exact wf_group. Qed.
 
 (* a command: `e` an Escape token directly followed by the name token `n`
-   (adjacent in `flat`), the name admissible, bracket arguments before brace
-   arguments, every argument well-formed.
+   (adjacent in `flat`), the name admissible, the argument list of a shape the
+   signature of the name can read, every argument well-formed.
    [forced by: read_command takes the token after the escape as the name
-   whatever it is; read_args runs the bracket loop before the brace loop] *)
+   whatever it is, and looks its signature up in SIGNATURES] *)
 Theorem C02pp_wf_cmd : forall SK mm e n args,
   wf SK mm (DCmd e n args) =
-  is_tc TEscape e && name_ok n && brackets_first (map arg_kind args) &&
+  is_tc TEscape e && name_ok n && cmd_shape (signature_of (ttext n)) args &&
   forallb (wf_arg SK mm) args.
 Proof. exact wf_cmd. Qed.
 
-(* the name: not in the fixed-signature table (those read a fixed number of
-   arguments and take bare tokens), not `item` (reads an item body), not
-   `begin` (opens an environment), not `end` (closes the enclosing environment
-   or item when peeked by read_env / read_item), not a special command
-   (\newcommand ...: arguments are read in special mode).
-   [forced by: signature_of in read_command; the name tests of read_expr] *)
+(* the name: not `item` (reads an item body), not `begin` (opens an
+   environment), not `end` (closes the enclosing environment or item when
+   peeked by read_env / read_item), not a special command (\newcommand ...:
+   arguments are read in special mode).  [forced by: the name tests of
+   read_expr, read_env, read_item; SPECIAL in read_command] *)
 Theorem C02pp_name_ok : forall n,
   name_ok n =
-  (let '(a, b) := signature_of (ttext n) in Z.eqb a (-1) && Z.eqb b (-1)) &&
   negb (str_eqb (ttext n) s_item) && negb (str_eqb (ttext n) s_begin) &&
   negb (str_eqb (ttext n) s_end) &&
   negb (mem_str (ttext n) Tables.special_commands).
 Proof. reflexivity. Qed.
+
+(* the shape of the argument list, by signature sg = (required, optional):
+   - free signature (-1,-1): the arguments are exactly four runs - brackets,
+     braces (first pass), brackets, braces (second pass) - and the first group
+     of each second-pass run has no spacer before it (read_args enters a
+     second pass only on the very next token; inside a pass read_spacer skips
+     one spacer before every group);
+   - (0,0): no arguments (read_args returns at once);
+   - otherwise: at most `optional` bracket groups, then exactly `required`
+     brace groups (fewer would make read_arg_required take bare tokens). *)
+Theorem C02pp_cmd_shape : forall sg args,
+  cmd_shape sg args =
+  if is_free sg then
+    let '(_, _, b2, c2, r4) := split4 args in
+    negb (nonempty r4) && head_no_spacer b2 && head_no_spacer c2
+  else
+    (0 <=? fst sg)%Z && (0 <=? snd sg)%Z &&
+    (if is_zero sg then negb (nonempty args)
+     else let (bs, r1) := take_kind GBracket args in
+          let (cs, r2) := take_kind GBrace r1 in
+          negb (nonempty r2) && (Z.of_nat (length bs) <=? snd sg)%Z &&
+          (Z.of_nat (length cs) =? fst sg)%Z).
+Proof. reflexivity. Qed.
+
+Theorem C02pp_split4 : forall args,
+  split4 args =
+  let (b1, r1) := take_kind GBracket args in
+  let (c1, r2) := take_kind GBrace r1 in
+  let (b2, r3) := take_kind GBracket r2 in
+  let (c2, r4) := take_kind GBrace r3 in
+  (b1, c1, b2, c2, r4).
+Proof. reflexivity. Qed.
+
+Theorem C02pp_take_kind : forall k a l,
+  take_kind k [] = ([], []) /\
+  take_kind k (a :: l) =
+  if groupkind_beq (arg_kind a) k
+  then let (x, y) := take_kind k l in (a :: x, y)
+  else ([], a :: l).
+Proof. intros; split; reflexivity. Qed.
 
 (* an argument group: the optional token before it is a MergedSpacer
    (read_spacer skips exactly one such token), `o` opens a group of kind k,
@@ -161,41 +204,49 @@ Proof. exact wf_math. Qed.
    - `e` an Escape token, `b` the name token `begin`        [read_expr's test]
    - ng a well-formed BRACE argument: the name group.  Its string, stripped,
      is the environment name (whatever the group contains)
-   - the name is not a math environment name (those switch the body to math
-     mode) and not in SK (those bodies are not parsed at all)
-   - what follows the name group - the body, then `\end` - satisfies the
-     follow condition of a command with the one brace argument ng: \begin is
-     read by read_command, which takes every further group as an argument
-     (a body starting with `{`, ` {` or `[` would lose that group)
+   - the name is not in SK (those bodies are not parsed at all)
+   - the body - and the closing name group - are read in math mode if the name
+     is a math environment name (env_mm), else in the mode of the environment
+   - ng followed by the further arguments xargs is an argument list of the
+     free shape (\begin is read by read_command with "as many as there are"
+     counts; all groups but the first become the arguments of the
+     environment), the further arguments are well-formed, and what follows
+     them - the body, then `\end` - satisfies the follow condition of that
+     command (a body starting with a group would lose it to \begin)
    - the body is a well-formed sequence for the environment loop (nothing
      closes it but `\end`; a command named `end` is not an element: name_ok)
    - `e2` an Escape token, `en` the name token `end`, ng2 a well-formed brace
      argument whose string EQUALS the environment name (read_env compares
      them; on a mismatch strict mode raises, tolerant mode leaves `\end`
      unread) *)
-Theorem C02pp_wf_env : forall SK mm e b ng body e2 en ng2,
-  wf SK mm (DEnv e b ng body e2 en ng2) =
+Theorem C02pp_wf_env : forall SK mm e b ng xargs body e2 en ng2,
+  wf SK mm (DEnv e b ng xargs body e2 en ng2) =
   is_tc TEscape e && str_eqb (ttext b) s_begin &&
   wf_arg SK mm ng && is_brace_arg ng &&
-  negb (mem_str (env_name ng) Tables.math_env_names) && negb (mem_str (env_name ng) SK) &&
-  cmd_follow [ng] (flat_list body ++ [e2]) &&
-  wf_seq SK mm CEnv body [e2; en] &&
+  negb (mem_str (env_name ng) SK) &&
+  cmd_shape free_sig (ng :: xargs) && forallb (wf_arg SK mm) xargs &&
+  cmd_follow free_sig (ng :: xargs) (flat_list body ++ [e2]) &&
+  wf_seq SK (env_mm mm ng) CEnv body [e2; en] &&
   is_tc TEscape e2 && str_eqb (ttext en) s_end &&
-  wf_arg SK mm ng2 && is_brace_arg ng2 &&
+  wf_arg SK (env_mm mm ng) ng2 && is_brace_arg ng2 &&
   str_eqb (arg_string (tree_arg ng2)) (env_name ng).
 Proof. exact wf_env. Qed.
 
 Theorem C02pp_env_name : forall ng, env_name ng = strip (arg_string (tree_arg ng)).
 Proof. reflexivity. Qed.
 
+Theorem C02pp_env_mm : forall mm ng,
+  env_mm mm ng = mm || mem_str (env_name ng) Tables.math_env_names.
+Proof. reflexivity. Qed.
+
 (* an item: not in math mode (read_expr asserts), `e` an Escape token, `n` the
-   name token `item`, arguments as for a command (brackets before braces,
-   well-formed).  Its body is not closed by a token of its own, so the
+   name token `item`, arguments as for a command of free signature,
+   well-formed.  Its body is not closed by a token of its own, so the
    conditions on the body are part of the FOLLOW condition below. *)
 Theorem C02pp_wf_item : forall SK mm e n args body,
   wf SK mm (DItem e n args body) =
   negb mm && is_tc TEscape e && str_eqb (ttext n) s_item &&
-  brackets_first (map arg_kind args) && forallb (wf_arg SK mm) args.
+  cmd_shape free_sig args && forallb (wf_arg SK mm) args.
 Proof. exact wf_item. Qed.
 
 (* a sequence read by a loop of context x and followed by `rest`:
@@ -226,28 +277,54 @@ Theorem C02pp_closes : forall x t,
                end.
 Proof. reflexivity. Qed.
 
-(* the follow condition, for commands only.  After the last argument:
-   - after an optional MergedSpacer there is no `{`: the brace loop would
-     attach it (in particular: no brace group directly after a command);
-   - if the command has no brace argument, after an optional MergedSpacer
-     there is no `[`: the bracket loop would attach it;
-   - if it has a brace argument, the very next token is not `[`: the SECOND
-     pass of read_args (entered without skipping a spacer) would attach it. *)
+(* the follow condition of a command, by signature and argument list, in
+   terms of four facts about the tokens that follow:
+     sg_  after an optional MergedSpacer the next token is not `{`
+     sb_  after an optional MergedSpacer the next token is not `[`
+     hb_  the very next token is not `[`      hg_  the very next token is not `{`
+   free signature, by the last run that is non-empty:
+     nothing or first-pass brackets only:  sg_ && sb_   (either loop would go on)
+     first-pass braces:   sg_ && hb_  (the brace loop would go on; a `[` glued on
+                                       starts the second pass)
+     second-pass brackets: sb_ && hg_ (the bracket loop would go on; a `{` glued
+                                       on starts the second brace pass; ` {` does
+                                       not)
+     second-pass braces:  sg_          (there is no third pass: `[` is text)
+   fixed signature: nothing for (0,0); otherwise nothing if the optional count
+   is used up, else no `[` may follow (after a spacer if there is no required
+   argument, directly if there is: the second pass would attach it). *)
 Theorem C02pp_follows_ok : forall SK e n args rest,
-  follows_ok SK (DCmd e n args) rest =
-  stopsb TGroupBegin rest &&
-  (if existsb is_brace_arg args then head_notb TBracketBegin rest
-   else stopsb TBracketBegin rest).
+  follows_ok SK (DCmd e n args) rest = cmd_follow (signature_of (ttext n)) args rest.
 Proof. reflexivity. Qed.
 
-(* after `\end{name}` the same: read_env PEEKS at `\end` with read_command,
-   which reads every following group as an argument of `\end` before the
-   name is compared; the groups are then left unread (the code re-reads only
-   the name group), so this condition is sufficient, not necessary - e.g.
-   `\begin{q}x\end{q}{y}` is read as the grammar would say, but an unclosed
-   `{` after `\end{q}` makes the PEEK fail in strict mode. *)
-Theorem C02pp_follows_ok_env : forall SK e b ng body e2 en ng2 rest,
-  follows_ok SK (DEnv e b ng body e2 en ng2) rest = cmd_follow [ng2] rest.
+Theorem C02pp_cmd_follow : forall sg args rest,
+  cmd_follow sg args rest =
+  let sg_ := stopsb TGroupBegin rest in
+  let sb_ := stopsb TBracketBegin rest in
+  let hb_ := head_notb TBracketBegin rest in
+  let hg_ := head_notb TGroupBegin rest in
+  if is_free sg then
+    let '(_, c1, b2, c2, _) := split4 args in
+    match b2, c2 with
+    | [], _ => sg_ && (if nonempty c1 then hb_ else sb_)
+    | _ :: _, [] => sb_ && hg_
+    | _ :: _, _ :: _ => sg_
+    end
+  else
+    if is_zero sg then true
+    else let (bs, _) := take_kind GBracket args in
+         (Z.of_nat (length bs) =? snd sg)%Z || (if (fst sg =? 0)%Z then sb_ else hb_).
+Proof. reflexivity. Qed.
+
+(* after `\end{name}` the follow condition of a command with the one brace
+   argument ng2: read_env PEEKS at `\end` with read_command, which reads every
+   following group as an argument of `\end` - in the mode of the environment
+   body - before the name is compared; the groups are then left unread (the
+   code re-reads only the name group).  The condition is sufficient, not
+   necessary (`\begin{q}x\end{q}{y}` is read as the grammar would say), but it
+   cannot simply be dropped: C02pp_end_follow_refuted below. *)
+Theorem C02pp_follows_ok_env : forall SK e b ng xargs body e2 en ng2 rest,
+  follows_ok SK (DEnv e b ng xargs body e2 en ng2) rest = cmd_follow free_sig [ng2] rest.
 Proof. reflexivity. Qed.
 
 (* an item followed by `rest`:
@@ -263,7 +340,7 @@ Proof. reflexivity. Qed.
      stop: it swallows the closer). *)
 Theorem C02pp_follows_ok_item : forall SK e n args body rest,
   follows_ok SK (DItem e n args body) rest =
-  cmd_follow args (flat_list body ++ rest) && wf_seq SK false CItem body rest &&
+  cmd_follow free_sig args (flat_list body ++ rest) && wf_seq SK false CItem body rest &&
   item_stop_b rest.
 Proof. exact follows_ok_item. Qed.
 
@@ -298,13 +375,20 @@ Theorem C02pp_peek_ok : forall d R,
   else True.
 Proof. reflexivity. Qed.
 
+Theorem C02pp_head_peek : forall R,
+  head_peek R =
+  forall e src, R = e :: src -> is_tc TEscape e = true ->
+  exists r f0, forall f, (f0 <= f)%nat ->
+               read_command f (-1) (-1) 1 true MNonMath R = Ok r.
+Proof. reflexivity. Qed.
+
 Theorem C02pp_follows_ok_other : forall SK d rest,
   match d with
-  | DCmd _ _ _ | DEnv _ _ _ _ _ _ _ | DItem _ _ _ _ => True
+  | DCmd _ _ _ | DEnv _ _ _ _ _ _ _ _ | DItem _ _ _ _ => True
   | _ => follows_ok SK d rest = true
   end.
 Proof.
-  intros SK [t|o b c|e n a|k o b c|e b ng body e2 en ng2|e n a body] rest;
+  intros SK [t|o b c|e n a|k o b c|e b ng xa body e2 en ng2|e n a body] rest;
     exact I || reflexivity.
 Qed.
 
@@ -330,6 +414,17 @@ Theorem C02pp_first_pass_follow_only_refuted :
 Proof. exact PP_first_pass_follow_only_refuted. Qed.
 Print Assumptions C02pp_first_pass_follow_only_refuted.
 
+(* fixed signatures: `\section{t}[x]` (optional count not used up: the second
+   pass attaches [x]) and `\textbf x` (a required argument that is not a group
+   is taken as a bare token) are not read as "command, then leaves" *)
+Theorem C02pp_fixed_signature_refuted :
+  (flat_list bad5_doc = fst (tokens_of_string bad5_src) /\
+   parse_tokens (flat_list bad5_doc) true [] <> Ok (ERoot (map tree bad5_doc))) /\
+  (flat_list bad6_doc = fst (tokens_of_string bad6_src) /\
+   parse_tokens (flat_list bad6_doc) true [] <> Ok (ERoot (map tree bad6_doc))).
+Proof. exact PP_fixed_signature_refuted. Qed.
+Print Assumptions C02pp_fixed_signature_refuted.
+
 (* \item in math mode: AssertionError in both tolerance modes ($\item a$) *)
 Theorem C02pp_item_in_math_refuted :
   flat_list bad3_doc = fst (tokens_of_string bad3_src) /\
@@ -337,6 +432,23 @@ Theorem C02pp_item_in_math_refuted :
   parse_tokens (flat_list bad3_doc) false [] = Err AssertionError.
 Proof. exact PP_item_in_math_refuted. Qed.
 Print Assumptions C02pp_item_in_math_refuted.
+
+Theorem C02pp_item_in_math_env_refuted :
+  flat_list bad7_doc = fst (tokens_of_string bad7_src) /\
+  parse_tokens (flat_list bad7_doc) true [] = Err AssertionError.
+Proof. exact PP_item_in_math_env_refuted. Qed.
+Print Assumptions C02pp_item_in_math_env_refuted.
+
+(* a brace group directly after `\end{equation}` is read by the look-ahead in
+   MATH mode: `\begin{equation}x\end{equation}{\item a}` raises AssertionError
+   (both tolerance modes), every element being well-formed *)
+Theorem C02pp_end_follow_refuted :
+  flat_list bad8_doc = fst (tokens_of_string bad8_src) /\
+  forallb (wf (all_skip []) false) bad8_doc = true /\
+  parse_tokens (flat_list bad8_doc) true [] = Err AssertionError /\
+  parse_tokens (flat_list bad8_doc) false [] = Err AssertionError.
+Proof. exact PP_end_follow_refuted. Qed.
+Print Assumptions C02pp_end_follow_refuted.
 
 (* an item at the end of a bracket group swallows the `]`  (\a[\item x]) *)
 Theorem C02pp_item_in_bracket_group_refuted :
@@ -389,6 +501,31 @@ Theorem C02pp_math_body :
 Proof. exact PP_seq_math. Qed.
 Print Assumptions C02pp_math_body.
 
+(* the body of an environment, up to and including `\end <name group>` *)
+Theorem C02pp_env_body :
+  forall SK ds name args pos skip strict m acc e2 en ng2 rest f,
+    mode_is_special m = false -> sub_skip SK skip ->
+    wf_seq SK (mode_is_math m) CEnv ds (e2 :: en :: flat_arg ng2 ++ rest) = true ->
+    is_tc TEscape e2 = true -> str_eqb (ttext en) s_end = true ->
+    wf_arg SK (mode_is_math m) ng2 = true -> is_brace_arg ng2 = true ->
+    str_eqb (arg_string (tree_arg ng2)) name = true ->
+    cmd_follow free_sig [ng2] rest = true ->
+    (3 * length (flat_list ds ++ e2 :: en :: flat_arg ng2 ++ rest) + 2 <= f)%nat ->
+    read_env_loop f name args pos skip strict m acc
+                  (flat_list ds ++ e2 :: en :: flat_arg ng2 ++ rest)
+    = Ok (ENamed name args (acc ++ map tree ds) pos, rest).
+Proof. exact PP_seq_env. Qed.
+Print Assumptions C02pp_env_body.
+
+(* the body of an item, up to where it stops (R is left unread) *)
+Theorem C02pp_item_body :
+  forall SK ds acc R f,
+    wf_seq SK false CItem ds R = true -> item_stop_b R = true -> head_peek R ->
+    (3 * length (flat_list ds ++ R) + 2 <= f)%nat ->
+    read_item_loop f acc (flat_list ds ++ R) = Ok (acc ++ map tree ds, R).
+Proof. exact PP_seq_item. Qed.
+Print Assumptions C02pp_item_body.
+
 (* C02 for the covered sub-grammar: the token list of a well-formed sequence
    of constructs parses - strictly and tolerantly, for every user skip list
    that does not name one of its environments - to the root whose children
@@ -402,8 +539,26 @@ Proof. exact PP_parse_tokens. Qed.
 Print Assumptions C02_structure_partial.
 
 (* the expected tree prints as the token texts when no argument is preceded by
-   a spacer, names are unpadded and the structural tokens carry their
-   delimiter text (tok_wf: true of all tokenizer output, Proofs/ConsBridge.v) *)
+   a spacer, names are unpadded (`printable`) and the structural tokens carry
+   their delimiter text (tok_wf: true of all tokenizer output,
+   Proofs/ConsBridge.v) *)
+Theorem C02pp_printable :
+  (forall t, printable (DLeaf t) = true) /\
+  (forall o b c, printable (DGroup o b c) = forallb printable b) /\
+  (forall e n args, printable (DCmd e n args) =
+                    str_eqb (strip (ttext n)) (ttext n) && forallb printable_arg args) /\
+  (forall k o b c, printable (DMath k o b c) = forallb printable b) /\
+  (forall e b ng xargs body e2 en ng2,
+     printable (DEnv e b ng xargs body e2 en ng2) =
+     printable_arg ng && forallb printable_arg xargs && printable_arg ng2 &&
+     str_eqb (strip (arg_string (tree_arg ng))) (arg_string (tree_arg ng)) &&
+     forallb printable body) /\
+  (forall e n args body, printable (DItem e n args body) =
+                         forallb printable_arg args && forallb printable body) /\
+  (forall sp k o b c, printable_arg (Arg sp k o b c) =
+                      match sp with None => true | Some _ => false end && forallb printable b).
+Proof. repeat split. Qed.
+
 Theorem C02pp_estr_tree :
   forall SK mm d rest,
     wf SK mm d = true -> follows_ok SK d rest = true ->
@@ -476,6 +631,35 @@ Proof.
   apply tok_wfb_all. vm_compute. reflexivity.
 Qed.
 
+(* \section[s]{t}\a{x}[y]{z}[w] \begin{tab}{ll}[h]\textbf{b}$\cup[$\end{tab} :
+   fixed signatures (1,1), (1,0), (0,0); both argument passes; an environment
+   with a brace and a (second-pass) bracket argument *)
+Example C02pp_ex5 :
+  ex5_src = [92;115;101;99;116;105;111;110;91;115;93;123;116;125;92;97;123;120;125;91;121;93;123;122;125;91;119;93;32;92;98;101;103;105;110;123;116;97;98;125;123;108;108;125;91;104;93;92;116;101;120;116;98;102;123;98;125;36;92;99;117;112;91;36;92;101;110;100;123;116;97;98;125]%N /\
+  tokens_of_string ex5_src = (flat_list ex5_doc, TEnd) /\
+  wf_seq (all_skip []) false CTop ex5_doc [] = true /\ forallb printable ex5_doc = true /\
+  Forall tok_wf (flat_list ex5_doc) /\
+  parse ex5_src true [] = Ok (ERoot (map tree ex5_doc)) /\
+  parse ex5_src false [] = Ok (ERoot (map tree ex5_doc)) /\
+  estr (ERoot (map tree ex5_doc)) = ex5_src.
+Proof.
+  repeat split; try (vm_compute; reflexivity).
+  apply tok_wfb_all. vm_compute. reflexivity.
+Qed.
+
+(* \begin{equation}a_1\cup[\frac{x}{y}\end{equation} : a math environment *)
+Example C02pp_ex6 :
+  ex6_src = [92;98;101;103;105;110;123;101;113;117;97;116;105;111;110;125;97;95;49;92;99;117;112;91;92;102;114;97;99;123;120;125;123;121;125;92;101;110;100;123;101;113;117;97;116;105;111;110;125]%N /\
+  tokens_of_string ex6_src = (flat_list ex6_doc, TEnd) /\
+  wf_seq (all_skip []) false CTop ex6_doc [] = true /\ forallb printable ex6_doc = true /\
+  Forall tok_wf (flat_list ex6_doc) /\
+  parse ex6_src true [] = Ok (ERoot (map tree ex6_doc)) /\
+  estr (ERoot (map tree ex6_doc)) = ex6_src.
+Proof.
+  repeat split; try (vm_compute; reflexivity).
+  apply tok_wfb_all. vm_compute. reflexivity.
+Qed.
+
 (* hypotheses of the element / body theorems on pieces of ex1 and ex4 *)
 Example C02pp_ex_expr :
   match ex1_doc with
@@ -499,6 +683,26 @@ Example C02pp_ex_group_body :
          (t 12%nat :: skipn 13 ex1_toks) = true /\
   is_group_end GBrace (t 12%nat) = true.
 Proof. exact ex_PP_seq_group_hyps. Qed.
+Example C02pp_ex_env_body :
+  let t i := nth i ex4_toks tok0 in
+  let ng2 := Arg None GBrace (t 24%nat) [DLeaf (t 25%nat)] (t 26%nat) in
+  match ex4_doc with
+  | DEnv _ _ ng _ body e2 en _ :: ds =>
+    wf_seq (all_skip []) false CEnv body (e2 :: en :: flat_arg ng2 ++ flat_list ds) = true /\
+    is_tc TEscape e2 = true /\ str_eqb (ttext en) s_end = true /\
+    wf_arg (all_skip []) false ng2 = true /\ is_brace_arg ng2 = true /\
+    str_eqb (arg_string (tree_arg ng2)) (env_name ng) = true /\
+    cmd_follow free_sig [ng2] (flat_list ds) = true
+  | _ => False
+  end.
+Proof. exact ex_PP_seq_env_hyps. Qed.
+Example C02pp_ex_item_body :
+  let t i := nth i ex4_toks tok0 in
+  let body := [DLeaf (t 16%nat);
+               DGroup (t 17%nat) [DItem (t 18%nat) (t 19%nat) [] [DLeaf (t 20%nat)]] (t 21%nat)] in
+  let R := skipn 22 ex4_toks in
+  wf_seq (all_skip []) false CItem body R = true /\ item_stop_b R = true /\ head_peek R.
+Proof. exact ex_PP_seq_item_hyps. Qed.
 Example C02pp_ex_math_body :
   let t i := nth i ex1_toks tok0 in
   wf_seq (all_skip []) true (CMath MInline) [DLeaf (t 17%nat)]
